@@ -13,6 +13,9 @@ Input streams (every random choice from random.Random(ctx.seed); see DESIGN.md 5
   coin     two to five droplets at one position (defect F30), tied / distinct / zero radii
   chain    chains of successive removals in which the removed index precedes the pairs that are examined later
   long     long emulsions
+  large    emulsions of 40 / 64 / 100 / 250 droplets (random, clustered, integer lattice with ties, coincident groups; d=1..3):
+           the nearest-neighbour clause needs sizes beyond the leaf size of the k-d tree (an approximate or truncated tree
+           search is exact on small inputs); 40 and 64 go through the whole oracle, 100 and 250 through the neighbour oracle
   raise    an operation that raises in the middle (grid of the wrong dimension) must leave the emulsion untouched
   from_random   regions (bounds list / array / every grid kind), radius forms, num, flags, droplet class, rng
 """
@@ -477,6 +480,68 @@ def run_raising(spec):
         return f"exception {type(e).__name__}: {e}"[:300], info
 
 
+def run_neighbours(spec):
+    """the distance-query part of the property on a LARGE emulsion, vectorised (no removal, no per-pair overlaps() calls)"""
+    info: dict = {}
+    try:
+        return _oracle_neighbours(spec, info), info
+    except Exception as e:
+        return f"exception {type(e).__name__}: {e}"[:300], info
+
+
+def _close(a, b, rel, abs_tol):
+    """math.isclose, element-wise"""
+    return np.abs(a - b) <= np.maximum(rel * np.maximum(np.abs(a), np.abs(b)), abs_tol)
+
+
+def _oracle_neighbours(spec, info):
+    v = effective_variant(spec)
+    info["var"] = v
+    s = math.ldexp(1.0, v["k"])
+    em, caller, other = build(spec, v)
+    members = list(em)
+    n = len(members)
+    if n != len(spec["positions"]):
+        return f"emulsion built via {v['prov']} has {n} droplets instead of {len(spec['positions'])}"
+    before = _state(members)
+    P = np.array([np.asarray(d.position, dtype=float) for d in members])
+    R = np.array([float(d.radius) for d in members])
+    info["classes"] = len({type(d) for d in members})
+    E0 = em.get_pairwise_distances() if v["call"] == "default" else (
+        em.get_pairwise_distances(False) if v["call"] == "pos" else em.get_pairwise_distances(subtract_radius=False))
+    if not _is_real_matrix(E0, n):
+        return f"distance matrix is not a finite real {n}x{n} array"
+    if not np.array_equal(E0, E0.T) or np.diag(E0).any():
+        return "distance matrix not symmetric with zero diagonal"
+    D = np.sqrt(((P[:, None, :] - P[None, :, :]) ** 2).sum(-1))
+    if not _close(E0, D, 1e-14, 1e-14 * s).all():
+        i, j = map(int, np.argwhere(~_close(E0, D, 1e-14, 1e-14 * s))[0])
+        return f"matrix entry {E0[i, j]} of droplets {i},{j} is not the centre distance {D[i, j]}"
+    # surface distances by the documented formula (the implementation's own surface matrix is compared with it entry by
+    # entry on the small emulsions)
+    E1 = E0 - (R[:, None] + R[None, :])
+    nd = em.get_neighbor_distances() if v["call"] == "default" else em.get_neighbor_distances(subtract_radius=False)
+    nds = em.get_neighbor_distances(True) if v["call"] == "pos" else em.get_neighbor_distances(subtract_radius=True)
+    for name, a in (("neighbour distances", nd), ("neighbour surface distances", nds)):
+        if not (isinstance(a, np.ndarray) and a.shape == (n,) and a.dtype.kind == "f" and np.isfinite(a).all()):
+            return f"{name} are not a finite real vector of length {n}: {type(a).__name__} {getattr(a, 'shape', None)} {getattr(a, 'dtype', None)}"
+    off = E0 + np.diag([np.inf] * n)
+    row = off.min(axis=1)
+    bad = ~_close(nd, row, 1e-12, 1e-12 * s)
+    if bad.any():
+        i = int(np.argmax(bad))
+        return f"neighbour distance {nd[i]} of droplet {i} is not the row minimum {row[i]}"
+    nearest = _close(off, row[:, None], 1e-12, 1e-12 * s)
+    ok = (nearest & _close(E1, nds[:, None], 1e-12, 1e-12 * s)).any(axis=1)
+    if not ok.all():
+        i = int(np.argmin(ok))
+        return (f"neighbour distance with subtracted radii {nds[i]} of droplet {i} is not the surface distance to a "
+                f"nearest neighbour {E1[i][nearest[i]].tolist()[:5]}")
+    if list(map(id, em)) != list(map(id, members)) or _state(members) != before:
+        return "a distance query changed the emulsion or its droplets"
+    return None
+
+
 # --------------------------------------------------------------------------------------------------------------------
 # generators
 # --------------------------------------------------------------------------------------------------------------------
@@ -735,6 +800,43 @@ def gen_long(ctx, rng):
     return out
 
 
+LARGE_SIZES = (40, 64, 100, 250)
+LARGE_FULL_ORACLE = 64  # up to this size the whole oracle (incl. removal) runs; above it the neighbour oracle
+
+
+def gen_large(ctx, rng):
+    """sizes beyond the leaf size (16) of the k-d tree behind get_neighbor_distances, in every dimension"""
+    out = []
+    for rep_ in range(ctx.scale(1, 3)):
+        for n in LARGE_SIZES + (() if ctx.quick or rep_ else (600,)):
+            for dim in (1, 2, 3):
+                for kind in ("random", "clustered", "lattice", "coincident"):
+                    side = max(2, round(n ** (1.0 / dim) * 1.5))
+                    if kind == "lattice":  # integer lattice: every droplet has several nearest neighbours at distance exactly 1
+                        m = math.ceil(n ** (1.0 / dim))
+                        pts = [list(map(float, p)) for p in itertools.product(range(m), repeat=dim)]
+                        rng.shuffle(pts)
+                        pos = pts[:n]
+                    elif kind == "clustered":
+                        centres = [[rng.randrange(0, 8) * 8.0 for _ in range(dim)] for _ in range(rng.choice([3, 4, 6]))]
+                        pos = [[c + rng.randrange(-48, 49) / 64.0 for c in rng.choice(centres)] for _ in range(n)]
+                    else:
+                        pos = []
+                        for _ in range(n):
+                            if kind == "coincident" and pos and rng.random() < 0.3:
+                                pos.append(list(rng.choice(pos)))
+                            else:
+                                pos.append([rng.randrange(0, side * 64 + 1) / 64.0 for _ in range(dim)])
+                    pat, rad = rand_radii(rng, n)
+                    if kind == "lattice":
+                        rad = [rng.choice([0.25, 0.5]) for _ in range(n)]
+                    var = rand_variant(rng, 0.5)
+                    var["ctor"] = "array64" if var["ctor"] == "int" and kind != "lattice" else var["ctor"]
+                    out.append(mk("large", pos, rad, rng.choice([0.0, 0.0, -0.25, 0.25]), dim, None, var, large_kind=kind,
+                                  no_coq=True, neighbours_only=n > LARGE_FULL_ORACLE))
+    return out
+
+
 def gen_raising(ctx, rng):
     out = []
     for dim in (1, 2, 3):
@@ -890,7 +992,10 @@ def _count_spec(ctx, spec, info):
     gs = spec["grid"]
     v = info.get("var", spec["var"])
     ctx.count("stream", spec["stream"])
-    ctx.count("droplets", n if n <= 12 else ("13-99" if n < 100 else ">=100"))
+    ctx.count("droplets", n)
+    ctx.count("neighbour_clause_judged_on_size", "<=12" if n <= 12 else ("13-39" if n < 40 else ("40-99" if n < 100 else ("100-249" if n < 250 else ">=250"))))
+    if spec["stream"] == "large":
+        ctx.count("large", "n=%d d=%d %s %s" % (n, spec["dim"], spec["large_kind"], "neighbour oracle" if spec.get("neighbours_only") else "whole oracle"))
     ctx.count("dim", spec["dim"])
     ctx.count("grid", grid_tag(gs))
     if gs is not None:
@@ -951,11 +1056,20 @@ def check(ctx: vlib.Ctx) -> int:
     if ctx.quick and nex > 6000:
         specs = [s for i, s in enumerate(specs) if i % (nex // 6000 + 1) == 0 or len(s["positions"]) <= 2]
     specs += gen_masks(ctx, rng) + gen_cyl(ctx, rng) + gen_coincident(ctx, rng) + gen_chains(ctx, rng) + gen_long(ctx, rng)
+    specs += gen_large(ctx, rng)
     specs += gen_random(ctx, rng, ctx.scale(900, 6000))
     ro_cases, ro_meta, dist_cases = [], [], []
     fails = []
     dist_cap = ctx.scale(2500, 12000)
     for idx, spec in enumerate(specs):
+        if spec.get("neighbours_only"):
+            f, info = run_neighbours(spec)
+            ctx.case(spec)
+            _count_spec(ctx, spec, info)
+            ctx.count("coq_correspondence", "oracle only (size)")
+            if f:
+                fails.append({"what": f, "input": {"neighbour_spec": spec}})
+            continue
         f, info = run_spec(spec)
         n = len(spec["positions"])
         md = spec["min_distance"]
@@ -1015,8 +1129,11 @@ def check(ctx: vlib.Ctx) -> int:
             ctx.count("from_random_returned", "num" if info["len"] == spec["num"] else "fewer")
         if f:
             fails.append({"what": f, "input": {"from_random_spec": spec, "droplets": info.get("droplets")}})
-    ctx.notes.append("min_distance = +-inf and emulsions of >= 600 droplets are fed to the property oracle only (the Q model has no "
-                     "infinite value; the matrix literal would be too large); all other cases also go through the in-Coq comparison")
+    ctx.notes.append("min_distance = +-inf and the emulsions of the streams `large` (40 .. 250 droplets; 600 in the thorough tier) and "
+                     "`long` (600) are fed to the property oracle only (the Q model has no infinite value; the model costs O(n^3) "
+                     "exact comparisons and the matrix literal would be too large); all other cases also go through the in-Coq "
+                     "comparison.  Emulsions of more than 64 droplets go through the vectorised distance / nearest-neighbour part of "
+                     "the oracle (run_neighbours), smaller ones through the whole oracle")
     ctx.notes.append("cylindrical / polar / spherical grids: the in-Coq distance comparison uses Model/OverlapCases.v cyl_metric / "
                      "sym_metric, i.e. py-pde 0.58.0 grid.distance(coords='cartesian') as it is (cylinder: Cartesian y wrapped with the z "
                      "period, z never wrapped = finding F19); the property oracle only uses grid.distance itself as 'the same metric'")
@@ -1034,6 +1151,8 @@ def replay(path: str) -> int:
     print(json.dumps(obj, indent=1)[:2000])
     if "spec" in inp:
         f, _ = run_spec(inp["spec"])
+    elif "neighbour_spec" in inp:
+        f, _ = run_neighbours(inp["neighbour_spec"])
     elif "raising_spec" in inp:
         f, _ = run_raising(inp["raising_spec"])
     elif "from_random_spec" in inp:
